@@ -207,7 +207,7 @@ def echo_args(*a, count_file=None, **k):
 
 
 # ---- C17 / C04 / C09: slow, stubborn and blocking targets -----------------------------------------------------------------
-def slow_echo(x, delay=0.1, size=0):
+def slow_echo(x, delay=0.1, size=0, marker=None):
     import time as _t
     if x == 'POISON':
         raise ValueError('poisoned')
@@ -279,3 +279,10 @@ def ctx_b(x, tag='b0', exp=2):
 
 def square(x):
     return x * x
+
+
+def t_spin(marker=None):
+    """Interruptible Python loop that never ends on its own."""
+    import time as _t
+    while True:
+        _t.sleep(0.001)
